@@ -660,6 +660,90 @@ def Reg.restFor {H : Type} (name : String) : Reg H → Option H
   | .ws _ _ => none
   | .rest n h => if name = n then some h else none
 
+/-! ## What a registration accepts (processor.go:152-169, 192-225, 321-368)
+
+`RegisterHandler` and `RegisterRESTHandler` look at the type of the function they are given and
+refuse everything `callInterfaceFunc` and the REST closure could not handle by reflection.  `Sig` is
+what those checks look at. -/
+
+/-- the fields of the argument struct, as far as `prepareHandlerGET` distinguishes them -/
+inductive FieldsT where
+  | none | oneInt | oneBytes | oneOther | many
+  deriving Repr, DecidableEq
+
+inductive ArgT where
+  | ptrStruct (f : FieldsT)   -- `*struct{…}`
+  | ptrOther                  -- pointer to something that is not a struct
+  | other                     -- not a pointer
+  deriving Repr, DecidableEq
+
+inductive Ret0T where
+  | iface | ptrStruct | ptrOther | other
+  deriving Repr, DecidableEq
+
+structure Sig where
+  isFunc : Bool := true
+  nIn : Nat := 1
+  in0 : ArgT := .ptrStruct .many
+  nOut : Nat := 2
+  out0 : Ret0T := .ptrStruct
+  out1Err : Bool := true
+  deriving Repr, DecidableEq
+
+inductive RegErr where
+  | notFunc | nArgs | argNotPtr | argNotStruct         -- `handlerInputCheck`
+  | nRet | ret0NotPtr | ret0NotStruct | ret1NotErr     -- `createServiceHandler`
+  | method | minMax | minVersion                       -- `RegisterRESTHandler`
+  | getFieldType | getFields                           -- `prepareHandlerGET`
+  deriving Repr, DecidableEq
+
+/-- processor.go:352-368 -/
+def handlerInputCheck (g : Sig) : Option RegErr :=
+  if !g.isFunc then some .notFunc
+  else if g.nIn ≠ 1 then some .nArgs
+  else match g.in0 with
+    | .other => some .argNotPtr
+    | .ptrOther => some .argNotStruct
+    | .ptrStruct _ => none
+
+/-- processor.go:321-350 -/
+def createServiceHandler (g : Sig) : Option RegErr :=
+  if g.nOut ≠ 2 then some .nRet
+  else match g.out0 with
+    | .other => some .ret0NotPtr
+    | .ptrOther => some .ret0NotStruct
+    | _ => if g.out1Err then none else some .ret1NotErr
+
+/-- `RegisterHandler` (processor.go:59-71): `none` = accepted -/
+def registerHandlerCheck (g : Sig) : Option RegErr :=
+  match handlerInputCheck g with
+  | some e => some e
+  | none => createServiceHandler g
+
+/-- processor.go:152-169 (only called for functions that passed the checks above) -/
+def prepareHandlerGET (g : Sig) : Except RegErr GetKind :=
+  match g.in0 with
+  | .ptrStruct .none => .ok .empty
+  | .ptrStruct .oneBytes => .ok .slice
+  | .ptrStruct .oneInt => .ok .int
+  | .ptrStruct .oneOther => .error .getFieldType
+  | _ => .error .getFields
+
+/-- the checks of `RegisterRESTHandler` in their order (processor.go:192-216); accepted: the kind
+of GET handler, if it is one -/
+def registerRESTCheck (g : Sig) (method : String) (minV maxV : Nat) : Except RegErr (Option GetKind) :=
+  if method ≠ "GET" ∧ method ≠ "POST" ∧ method ≠ "PUT" then .error .method
+  else if minV > maxV then .error .minMax
+  else if minV < 3 then .error .minVersion
+  else match registerHandlerCheck g with
+    | some e => .error e
+    | none =>
+      if method = "GET" then
+        match prepareHandlerGET g with
+        | .ok k => .ok (some k)
+        | .error e => .error e
+      else .ok none
+
 /-! ## The concrete service of the correspondence run (harness/cmd/onetharness/c14svc.go) -/
 
 /-- request fields `A int64`, `S string`, `B []byte` -/
@@ -957,6 +1041,35 @@ def resourceId (s : String) : Option Nat :=
   if s = "C14Post" then some 0 else if s = "C14Put" then some 1 else if s = "C14Int" then some 2
   else if s = "C14Bytes" then some 3 else if s = "C14Empty" then some 4 else if s = "C14Both" then some 5 else none
 
+def regErrName : RegErr → String
+  | .notFunc => "notfunc" | .nArgs => "nargs" | .argNotPtr => "argnotptr" | .argNotStruct => "argnotstruct"
+  | .nRet => "nret" | .ret0NotPtr => "ret0notptr" | .ret0NotStruct => "ret0notstruct" | .ret1NotErr => "ret1noterr"
+  | .method => "method" | .minMax => "minmax" | .minVersion => "minversion"
+  | .getFieldType => "getfieldtype" | .getFields => "getfields"
+
+/-- the functions of the harness's table `c14sigs`, as the registration checks see them -/
+def sigOf (name : String) : Option Sig :=
+  if name = "notfunc" then some { isFunc := false }
+  else if name = "noargs" then some { nIn := 0 }
+  else if name = "twoargs" then some { nIn := 2 }
+  else if name = "argval" then some { in0 := .other }
+  else if name = "argptrint" then some { in0 := .ptrOther }
+  else if name = "ret1" then some { nOut := 1 }
+  else if name = "ret3" then some { nOut := 3 }
+  else if name = "retval" then some { out0 := .other }
+  else if name = "retptrint" then some { out0 := .ptrOther }
+  else if name = "reterrint" then some { out1Err := false }
+  else if name = "ok" then some {}
+  else if name = "okiface" then some { out0 := .iface }
+  else if name = "get-empty" then some { in0 := .ptrStruct .none }
+  else if name = "get-int" then some { in0 := .ptrStruct .oneInt }
+  else if name = "get-bytes" then some { in0 := .ptrStruct .oneBytes }
+  else if name = "get-string" then some { in0 := .ptrStruct .oneOther }
+  else if name = "get-int64" then some { in0 := .ptrStruct .oneOther }
+  else if name = "get-ints" then some { in0 := .ptrStruct .oneOther }
+  else if name = "get-two" then some { in0 := .ptrStruct .many }
+  else none
+
 /-- the websocket reply of the concrete service is compared in decoded form: recompute the reply
 value that `encode` stands for.  Returns the state, the outcome and the text of a reply. -/
 def wsOut (st : State) (path : String) (buf : Bytes) : State × WsOut × String :=
@@ -1076,6 +1189,20 @@ def step (s : State) (toks : List String) : State × String :=
           let r := wsShow st path b
           go k r.1 (if txt.startsWith "close" then txt else r.2)
       go n s ""
+    | _, _ => (s, "bad-op")
+  | ["reg", api, sig] =>
+    -- a registration attempt with the function named `sig` of the harness's table (c14.go `c14sigs`)
+    match sigOf sig, api.splitOn ":" with
+    | some g, ["ws"] =>
+      (s, match registerHandlerCheck g with | none => "ok" | some e => "err " ++ regErrName e)
+    | some g, ["rest", method, mn, mx] =>
+      match mn.toNat?, mx.toNat? with
+      | some mn, some mx =>
+        (s, match registerRESTCheck g method mn mx with
+            | .ok none => "ok"
+            | .ok (some .empty) => "ok empty" | .ok (some .int) => "ok int" | .ok (some .slice) => "ok slice"
+            | .error e => "err " ++ regErrName e)
+      | _, _ => (s, "bad-op")
     | _, _ => (s, "bad-op")
   | ["direct", path, buf] =>
     -- `Service.ProcessClientRequest` called directly (processor.go:645-676)
